@@ -395,6 +395,11 @@ func c11GenTree(c *engine.C) engine.Case {
 		}
 		unit.cls = c11Class(name, unit.methods)
 		units = append(units, unit)
+		if c.Bool(pfx + "left-over-copy-next-to-it") {
+			// an editor / merge left-over of the same source next to it: not a .java file, hence not a test file
+			c.Tag("left-over-copy")
+			units = append(units, c11Unit{path: unit.path + ".orig", cls: unit.cls, methods: unit.methods})
+		}
 	}
 	return func() engine.Result { return c11Run(units, layout) }
 }
